@@ -471,6 +471,12 @@ def r6_ranges(ctx):
             init = [dv for _, dv in astx.defs_of(q.node, astx.u(b["profile"])) if dv is not None and astx.u(dv) == "self._profile"]
             good = (astx.u(lp.iter) == "range(round_number)" and astx.u(b.get("prev_state")) == f"self.election_states[{idx}]"
                     and "store_states" not in b and isinstance(tgt, ast.Assign) and astx.u(tgt.targets[0]) == astx.u(b["profile"]) and bool(init))
+            # the replay consults nothing the run left behind except the recorded states themselves: an object cached
+            # by the run (e.g. a sub-election whose states the run renumbers in place) answers differently afterwards
+            rd = {a: why for a, why in _run_dependent_attrs(prog, q.cls).items() if a not in ("election_states", "length")}
+            stale = [n for n in astx.walk_own(q.node) if isinstance(n, ast.Attribute) and isinstance(n.ctx, ast.Load) and astx.is_name(n.value, "self") and n.attr in rd]
+            ctx.check(not stale, q, stale[0] if stale else q.node, f"{q.short}: the replay reads only construction-time state and the recorded states", f"run-dependent attributes: {sorted(rd)}",
+                      f"reads self.{stale[0].attr if stale else ''}, which is {rd.get(stale[0].attr) if stale else ''}: the replayed profile depends on what the run left in it")
             ctx.check(good, q, lp, f"{q.short}: replays steps 0..rn-1 from the initial profile without recording",
                       f"for {idx} in {astx.u(lp.iter)}: {astx.u(tgt)[:90]}",
                       f"replay loop is `for {idx} in {astx.u(lp.iter)}: {astx.u(tgt)[:90]}`; specified range(rn) over self.election_states[i], starting at self._profile, store_states unset")
@@ -609,7 +615,7 @@ AK = "src/votekit/elections/election_types/ranking/alaska.py"
 RT = "src/votekit/elections/election_types/scores/rating.py"
 CB = "src/votekit/elections/election_types/ranking/condo_borda.py"
 FAULTS = [
-    ("getattr in models", [(MO, "        return self.length\n", "        return getattr(self, 'length')\n")], "C09.P0"),
+    ("computed getattr in models", [(MO, "        return self.length\n", "        return getattr(self, 'len' + 'gth')\n")], "C09.P0"),
     ("get_remaining caches on self", [(MO, "        return tuple(self.election_states[round_number].remaining)", "        self._last_remaining = tuple(self.election_states[round_number].remaining)\n        return self._last_remaining")], "C09.R1"),
     ("get_eliminated reverses stored tuple in place", [(MO, "        round_number = round_number % len(self.election_states)\n\n        # reverses order to match ranking convention", "        round_number = round_number % len(self.election_states)\n        self.election_states.reverse()\n        self.election_states.reverse()\n\n        # reverses order to match ranking convention")], "C09.R1"),
     ("plurality appends during replay", [(PL, "            self.election_states.append(new_state)\n\n        return new_profile\n\n\nclass SNTV", "            pass\n        self.election_states.append(new_state)\n\n        return new_profile\n\n\nclass SNTV")], "C09.R2"),
@@ -637,6 +643,7 @@ FAULTS = [
     ("alaska get_profile replays from round-1 profile", [(AK, "        profile = self._profile\n\n        if round_number in [0, 1]:", "        profile = self.get_profile(0) if round_number == 0 else self._profile\n\n        if round_number in [0, 1]:")], None),
 ]
 BENIGN = [
+    ("literal getattr in models", [(MO, "        return self.length\n", "        return getattr(self, 'length')\n")]),
     ("guard with <= written as not >", [(MO, "            round_number < -len(self.election_states)\n            or round_number > len(self.election_states) - 1\n        ):\n            raise IndexError(\"round_number out of range.\")\n\n        round_number = round_number % len(self.election_states)\n\n        profile = self._profile",
                                          "            round_number >= len(self.election_states)\n            or -len(self.election_states) > round_number\n        ):\n            raise IndexError(\"round_number out of range.\")\n\n        round_number = round_number % len(self.election_states)\n\n        profile = self._profile")]),
     ("slice written without parentheses", [(MO, "                for state in self.election_states[: (round_number + 1)]", "                for state in self.election_states[: 1 + round_number]")]),
